@@ -4,6 +4,7 @@
 package simrt
 
 import (
+	"runtime"
 	"cmp"
 	"crypto/sha256"
 	"encoding/hex"
@@ -152,6 +153,30 @@ var (
 )
 
 // SeedMaps seeds the permutation stream used for map iteration order.
+// Yield is called (by generated code) before every mutex acquisition in rain. With probability
+// YieldP it hands the processor to the other runnable goroutines; the coin comes from a stream
+// seeded per run, so the perturbed schedule is as repeatable as the unperturbed one.
+var (
+	YieldP    float64
+	yieldRand *Rand
+)
+
+func SetYield(p float64, seed uint64) { YieldP, yieldRand = p, NewRand(seed^0x7969656c64) }
+
+func Yield() {
+	if YieldP <= 0 || yieldRand == nil {
+		return
+	}
+	if yieldRand.Chance(YieldP) {
+		yields++
+		runtime.Gosched()
+	}
+}
+
+var yields int64
+
+func Yields() int64 { return yields }
+
 func SeedMaps(seed uint64) { mapRand = NewRand(seed ^ 0x6d61706d6170) }
 
 func isPtrLike(k reflect.Kind) bool {
